@@ -409,6 +409,6 @@ def run_case(ctx, case):
                         ctx.violation('accepted-newer-field|%s|%06X' % (op[0].name.title().replace('_', ''), newer[0]),
                                       'a KMIP %d.%d %s request carrying tag %06X (KMIP %d.%d) succeeded'
                                       % (v + (opn, newer[0]) + tag_intro(newer[0])), {'request': data.hex()[:500]})
-            ctx.sample({'part': part, 'case': case})
+            ctx.sample({'part': part, 'case': case, 'cells_so_far': sorted(ctx.cells)[-6:]})
         finally:
             srv.close()
